@@ -121,28 +121,30 @@ Proof.
       * right. exists k, targets. split; [exact Hn|]. split; [exact Hl|]. replace (i + 1 + N.of_nat k) with (i + N.of_nat (S k)) by lia. exact Hi.
 Qed.
 
-Lemma bucket_branch_spec : forall ti bl (b : list json) l,
+Lemma bucket_branch_spec : forall (f : fetch) ti bl (b : list json) l,
   In l (match b with
         | [] => []
-        | _ :: _ => if Nat.eqb (length bl) (length b) then bucket_taints ti bl 0 else []
+        | _ :: _ => if wrong_kind_batch f b then [] else if Nat.eqb (length bl) (length b) then bucket_taints ti bl 0 else []
         end) <->
-  (exists b', JArr b = JArr b' /\ b' <> [] /\ length b' = length bl) /\
+  (exists b', JArr b = JArr b' /\ b' <> [] /\ length b' = length bl /\ wrong_kind_batch f b' = false) /\
   exists k targets, nth_error bl k = Some targets /\ In l targets /\ In (N.of_nat k) ti.
 Proof.
-  intros ti bl b l. destruct b as [|e es].
+  intros f ti bl b l. destruct b as [|e es].
   - split; [intros []|]. intros ((b' & E & Hb & _) & _). inversion E; subst. contradiction.
-  - destruct (Nat.eqb (length bl) (length (e :: es))) eqn:El.
+  - destruct (wrong_kind_batch f (e :: es)) eqn:Ewk.
+    { split; [intros []|]. intros ((b' & E & _ & _ & Hw) & _). inversion E; subst. rewrite Ewk in Hw. discriminate. }
+    destruct (Nat.eqb (length bl) (length (e :: es))) eqn:El.
     + apply Nat.eqb_eq in El. rewrite bucket_taints_spec. split.
-      * intros (k & targets & Hn & Hl & Hin). split; [exists (e :: es); repeat split; [discriminate|symmetry; exact El]|].
+      * intros (k & targets & Hn & Hl & Hin). split; [exists (e :: es); repeat split; [discriminate|symmetry; exact El|exact Ewk]|].
         exists k, targets. replace (0 + N.of_nat k) with (N.of_nat k) in Hin by lia. repeat split; assumption.
       * intros (_ & k & targets & Hn & Hl & Hin). exists k, targets. replace (0 + N.of_nat k) with (N.of_nat k) by lia. repeat split; assumption.
-    + apply Nat.eqb_neq in El. split; [intros []|]. intros ((b' & E & _ & Hl) & _). inversion E; subst. symmetry in Hl. contradiction.
+    + apply Nat.eqb_neq in El. split; [intros []|]. intros ((b' & E & _ & Hl & _) & _). inversion E; subst. symmetry in Hl. contradiction.
 Qed.
 
 (* the response went through the bucket branch of mergeResult: parsed, `_entities` a non-empty array of n items *)
 Definition batch_merged (f : fetch) (res : response) (n : nat) : Prop :=
   exists resp b, rs_err res = false /\ rs_body res = BJson resp /\ valid_numbers resp = true /\
-                 get_loc (f_datapath f) resp = Some (JArr b) /\ b <> [] /\ length b = n.
+                 get_loc (f_datapath f) resp = Some (JArr b) /\ b <> [] /\ length b = n /\ wrong_kind_batch f b = false.
 
 Lemma new_taints_batch : forall ti f res items bl s l, f_kind f = FBatch -> items <> [] ->
   In l (new_taints ti f res items (Some bl) s) <->
@@ -167,12 +169,12 @@ Proof.
            end) with false.
   2:{ destruct (get_loc [PName k_data; PName k_entities] resp) as [[]|]; reflexivity. }
   assert (Hgen : forall X : Prop, ((exists resp' b, false = false /\ BJson resp = BJson resp' /\ valid_numbers resp' = true /\
-             get_loc (f_datapath f) resp' = Some (JArr b) /\ b <> [] /\ length b = length bl) /\ X) <->
-          (exists b, rd = JArr b /\ b <> [] /\ length b = length bl) /\ X).
+             get_loc (f_datapath f) resp' = Some (JArr b) /\ b <> [] /\ length b = length bl /\ wrong_kind_batch f b = false) /\ X) <->
+          (exists b, rd = JArr b /\ b <> [] /\ length b = length bl /\ wrong_kind_batch f b = false) /\ X).
   { intros X. split.
-    - intros ((resp' & b & _ & E & _ & Er' & Hb & Hl) & HX). inversion E; subst resp'. rewrite Er in Er'. inversion Er'; subst rd.
+    - intros ((resp' & b & _ & E & _ & Er' & Hb & Hl & Hw) & HX). inversion E; subst resp'. rewrite Er in Er'. inversion Er'; subst rd.
       split; [exists b; repeat split; assumption|exact HX].
-    - intros ((b & -> & Hb & Hl) & HX). split; [|exact HX]. exists resp, b. repeat split; assumption. }
+    - intros ((b & -> & Hb & Hl & Hw) & HX). split; [|exact HX]. exists resp, b. repeat split; assumption. }
   rewrite Hgen. clear Hgen.
   destruct items as [|i0 ir]; [contradiction|].
   destruct ir as [|i1 ir]; (destruct rd as [|bb|nn|ss|b|m]; cbn [is_nullish];
@@ -514,6 +516,7 @@ Lemma untainted_same_thm : forall f r0 p items bl s resp0 ents0,
   rs_err r0 = false -> rs_body r0 = BJson resp0 -> valid_numbers resp0 = true ->
   get_loc [PName k_data; PName k_entities] resp0 = Some (JArr ents0) -> ents0 <> [] -> length bl = length ents0 -> items <> [] ->
   (forall respP, rs_body (apply_partial p r0) = BJson respP -> valid_numbers respP = true) ->
+  wrong_kind_batch f ents0 = false -> wrong_kind_batch f (null_fields (pf_nulls p) 0 ents0) = false ->
   let sP := merge_result f (apply_partial p r0) items (Some bl) s in
   let s0 := merge_result f r0 items (Some bl) s in
   ls_hard sP = false -> ls_hard s0 = false ->
@@ -522,10 +525,10 @@ Lemma untainted_same_thm : forall f r0 p items bl s resp0 ents0,
     (forall j tj t, nth_error bl j = Some tj -> In t tj -> (t = l /\ j = k) \/ apart l t) ->
     get_loc l (ls_data sP) = get_loc l (ls_data s0).
 Proof.
-  intros f r0 p items bl s resp0 ents0 Hk Hdp He Hb Hv Hent Hne Hlen Hitems HvP. cbv zeta. intros HhP Hh0 k targets l Hn Hl Hnot Hanti.
+  intros f r0 p items bl s resp0 ents0 Hk Hdp He Hb Hv Hent Hne Hlen Hitems HvP Hwk0 HwkP. cbv zeta. intros HhP Hh0 k targets l Hn Hl Hnot Hanti.
   assert (Hcb : forall resp, count_bad f resp = false) by (intros resp; unfold count_bad; rewrite Hk; reflexivity).
   destruct ents0 as [|e0 er]; [contradiction|].
-  destruct (merge_result_many f r0 items bl s resp0 e0 er He Hb Hv (Hcb _) ltac:(rewrite Hdp; exact Hent) Hitems Hlen) as (s1 & Hd1 & Hh1 & _ & E0).
+  destruct (merge_result_many f r0 items bl s resp0 e0 er He Hb Hv (Hcb _) ltac:(rewrite Hdp; exact Hent) Hitems Hlen Hwk0) as (s1 & Hd1 & Hh1 & _ & E0).
   set (respP := add_errors (pf_errors p) (map_entities (null_fields (pf_nulls p) 0) resp0)).
   assert (HbP : rs_body (apply_partial p r0) = BJson respP) by (unfold apply_partial, on_body; cbn [rs_body]; rewrite Hb; reflexivity).
   assert (HeP : rs_err (apply_partial p r0) = false) by (unfold apply_partial, on_body; cbn [rs_err]; exact He).
@@ -534,7 +537,7 @@ Proof.
   remember (null_fields (pf_nulls p) 0 (e0 :: er)) as entsP eqn:EP.
   assert (HlenP : length entsP = length (e0 :: er)) by (subst entsP; apply null_fields_length).
   destruct entsP as [|eP erP]; [simpl in HlenP; discriminate|].
-  destruct (merge_result_many f (apply_partial p r0) items bl s respP eP erP HeP HbP (HvP _ HbP) (Hcb _) HentP Hitems ltac:(rewrite Hlen; symmetry; exact HlenP))
+  destruct (merge_result_many f (apply_partial p r0) items bl s respP eP erP HeP HbP (HvP _ HbP) (Hcb _) HentP Hitems ltac:(rewrite Hlen; symmetry; exact HlenP) HwkP)
     as (s2 & Hd2 & Hh2 & _ & EPm).
   rewrite E0 in *. rewrite EPm in *.
   apply buckets_agree; [exact HlenP|exact HhP|exact Hh0|rewrite Hd1, Hd2; reflexivity|].
@@ -786,6 +789,7 @@ Lemma untainted_same_items : forall f data path T d' rq bl r0 p s resp0 ents0,
   rs_err r0 = false -> rs_body r0 = BJson resp0 -> valid_numbers resp0 = true ->
   get_loc [PName k_data; PName k_entities] resp0 = Some (JArr ents0) -> length bl = length ents0 ->
   (forall respP, rs_body (apply_partial p r0) = BJson respP -> valid_numbers respP = true) ->
+  wrong_kind_batch f ents0 = false -> wrong_kind_batch f (null_fields (pf_nulls p) 0 ents0) = false ->
   let items := filter_tainted T (select_items data path) in
   let sP := merge_result f (apply_partial p r0) items (Some bl) s in
   let s0 := merge_result f r0 items (Some bl) s in
@@ -794,10 +798,10 @@ Lemma untainted_same_items : forall f data path T d' rq bl r0 p s resp0 ents0,
     (forall fld, ~ In (N.of_nat k, fld) (pf_nulls p)) ->
     get_loc l (ls_data sP) = get_loc l (ls_data s0).
 Proof.
-  intros f data path T d' rq bl r0 p s resp0 ents0 Hk Hdp Hp He Hb Hv Hent Hlen HvP. cbv zeta. intros HhP Hh0 k targets l Hn Hl Hnot.
+  intros f data path T d' rq bl r0 p s resp0 ents0 Hk Hdp Hp He Hb Hv Hent Hlen HvP Hwk0 HwkP. cbv zeta. intros HhP Hh0 k targets l Hn Hl Hnot.
   destruct (prepare_batch_inv _ _ _ _ _ _ Hk Hp) as (_ & Hbl & Hne & Hitems). cbv zeta in *.
   assert (Hents : ents0 <> []).
   { intros ->. simpl in Hlen. rewrite Hbl in Hlen. rewrite map_length in Hlen. apply Hne. apply length_zero_iff_nil. exact Hlen. }
-  eapply (untainted_same_thm f r0 p _ bl s resp0 ents0 Hk Hdp He Hb Hv Hent Hents Hlen Hitems HvP HhP Hh0 k targets l Hn Hl Hnot).
+  eapply (untainted_same_thm f r0 p _ bl s resp0 ents0 Hk Hdp He Hb Hv Hent Hents Hlen Hitems HvP Hwk0 HwkP HhP Hh0 k targets l Hn Hl Hnot).
   intros j tj t Hnj Ht. eapply (targets_apart f data path T d' rq bl Hk Hp k targets l Hn Hl j tj t Hnj Ht).
 Qed.
